@@ -129,6 +129,18 @@ func ClearOPT(msg *dns.Msg) *dns.Msg {
 	return msg
 }
 
+// ClearStrayOPT removes OPT records from the answer and authority
+// sections. An OPT belongs in the additional section only (RFC 6891
+// 6.1.1); one an upstream placed elsewhere is invisible to every EDNS
+// step, which all look at the additional section, and would reach the
+// client, or the cache, with whatever options it carries. Sections
+// without an OPT are left as they are; others are rebuilt, not edited.
+func ClearStrayOPT(msg *dns.Msg) *dns.Msg {
+	msg.Answer = filterOut(msg.Answer, isOPT)
+	msg.Ns = filterOut(msg.Ns, isOPT)
+	return msg
+}
+
 // ClearDNSSEC removes RRSIG, NSEC and NSEC3 records from Answer and Ns
 // sections in place. Short-circuits when the sections already hold
 // nothing to strip (typical for non-DNSSEC responses), and reuses the
